@@ -123,8 +123,41 @@ func (o op) String() string {
 	return fmt.Sprintf("TAC<-%02X", o.v)
 }
 
+// timerFace is the timer as the checks drive it: directly, or through the memory bus of a
+// whole machine (busTimer).
+type timerFace interface {
+	XSetCounter(uint16)
+	EndMachineCycle() bool
+	WriteDIV(uint8)
+	WriteTIMA(uint8)
+	WriteTMA(uint8)
+	WriteTAC(uint8)
+	ReadDIV() uint8
+	ReadTIMA() uint8
+	ReadTMA() uint8
+	ReadTAC() uint8
+}
+
+// busTimer reaches the timer of a machine through Mapper.Write/Read at FF04-FF07; a machine
+// cycle also advances the mapper (an OAM DMA transfer may be in flight).
+type busTimer struct{ m *rig.Machine }
+
+func (b busTimer) XSetCounter(v uint16) { b.m.Timer.XSetCounter(v) }
+func (b busTimer) EndMachineCycle() bool {
+	b.m.Mem.EndMachineCycle()
+	return b.m.Timer.EndMachineCycle()
+}
+func (b busTimer) WriteDIV(v uint8)  { b.m.Mem.Write(0xff04, v) }
+func (b busTimer) WriteTIMA(v uint8) { b.m.Mem.Write(0xff05, v) }
+func (b busTimer) WriteTMA(v uint8)  { b.m.Mem.Write(0xff06, v) }
+func (b busTimer) WriteTAC(v uint8)  { b.m.Mem.Write(0xff07, v) }
+func (b busTimer) ReadDIV() uint8    { return b.m.Mem.Read(0xff04) }
+func (b busTimer) ReadTIMA() uint8   { return b.m.Mem.Read(0xff05) }
+func (b busTimer) ReadTMA() uint8    { return b.m.Mem.Read(0xff06) }
+func (b busTimer) ReadTAC() uint8    { return b.m.Mem.Read(0xff07) }
+
 type pair struct {
-	real   *timer.Timer
+	real   timerFace
 	ref    refTimer
 	irqBug string
 	owed   bool // the previous tick's overflow has not produced its request yet
@@ -135,8 +168,10 @@ type start struct {
 	tac, tima, tma uint8
 }
 
-func newPair(s start) *pair {
-	p := &pair{real: timer.New()}
+func newPair(s start) *pair { return newPairOn(timer.New(), s) }
+
+func newPairOn(t timerFace, s start) *pair {
+	p := &pair{real: t}
 	// one warm-up tick so that the sampled signal of both sides is the one of the start state
 	p.real.XSetCounter(s.counter - 4)
 	p.ref.counter = s.counter - 4
@@ -369,6 +404,58 @@ func run(c *rig.Ctx) {
 				p = newPair(start{counter: p.ref.counter, tac: p.ref.tac, tima: r.U8(), tma: p.ref.tma})
 			}
 			c.Count("random_ops", 1)
+		}
+		c.Case(rig.Hash(uint64(i), r.U64()))
+	})
+
+	// the same random schedules through the memory bus of a whole machine (stores to FF04-FF07,
+	// reads of the same), with OAM DMA transfers started now and then: a transfer in flight is no
+	// business of the timer registers'
+	c.Part("through-the-bus", c.N(60, 600), func(i int64, r *rig.Rng) {
+		m := rig.MustNew(rig.BlankROM(0, 0, 0), rig.Opts{})
+		for k := 0; k < 4; k++ {
+			m.Step()
+		}
+		st := start{counter: r.U16() &^ 3, tac: r.U8() & 7, tima: r.U8(), tma: r.U8()}
+		p := newPairOn(busTimer{m}, st)
+		n := int(c.N(12000, 60000))
+		var hist []op
+		for k := 0; k < n; k++ {
+			var o op
+			switch r.Intn(14) {
+			case 0:
+				o = op{1, r.U8()}
+			case 1:
+				o = op{2, r.Pick8([]uint8{0xfd, 0xfe, 0xff, 0x00, r.U8()})}
+			case 2:
+				o = op{3, r.U8()}
+			case 3:
+				o = op{4, r.U8()}
+			default:
+				o = op{0, 0}
+			}
+			if r.Chance(1, 300) {
+				m.Mem.Write(0xff46, uint8(0xc0+r.Intn(0x20)))
+				c.Count("bus_dma_transfers_started", 1)
+			}
+			if run, _ := m.OAM.XDMA(); run && o.kind != 0 {
+				c.Count("bus_timer_stores_during_dma", 1)
+			}
+			if len(hist) >= 24 {
+				copy(hist, hist[1:])
+				hist = hist[:23]
+			}
+			hist = append(hist, o)
+			if msg := p.apply(o); msg != "" {
+				run, _ := m.OAM.XDMA()
+				c.Violate("bus-"+[...]string{"normal", "cycleA", "cycleB"}[p.ref.phase], fmt.Sprintf("through the memory bus (OAM DMA in flight: %v), start %+v, after %d random ops (last %v): %s", run, st, k+1, hist, msg), nil)
+				break
+			}
+			if p.ref.unspecified != "" {
+				c.Count("unspecified_histories", 1)
+				p = newPairOn(busTimer{m}, start{counter: p.ref.counter, tac: p.ref.tac, tima: r.U8(), tma: p.ref.tma})
+			}
+			c.Count("bus_ops", 1)
 		}
 		c.Case(rig.Hash(uint64(i), r.U64()))
 	})
